@@ -82,6 +82,7 @@ func runC19(c *Ctx) {
 		c19Relay(c, p, cl, ob)
 	}
 	c19Handlers(c, p)
+	intTyped(c, p, "R2", "obfs4proxy.termMonitor", "handlerChan", "numHandlers")
 	c19Wait(c, p)
 }
 
